@@ -64,6 +64,16 @@ C06_HeadTagBump(lo, hi) ==
           /\ H[j].v # H[i].v /\ H[j].v % 65536 = H[i].v % 65536
           /\ \A m \in j + 1 .. i - 1 : ~(H[m].e = "ld" /\ H[m].t = H[i].t /\ H[m].a = H[i].a /\ H[m].fn = "kirsch_bounded_kfifo_queue::try_push")
 
+\* C06: kirsch_bounded_kfifo_queue::try_push inserts its value with a CAS and only then checks `committed`; when committed()
+\* finds the slot outside the valid region (or loses the race for the head tag) it takes the value OUT again and retries.
+\* Between the insertion and the withdrawal the value is visible: a concurrent try_push sees a full queue and is rejected,
+\* a later pop sees the queue empty again - a history no bounded k-FIFO has (a push rejected although nothing was stored).
+\* Signature: a successful CAS inside committed() on a slot (the word found is a value pointer, not an index word).
+C06_PushRollback(lo, hi) ==
+  \E i \in lo .. hi :
+     /\ H[i].e = "cas" /\ H[i].r = 1 /\ H[i].t # 9 /\ H[i].fn = "kirsch_bounded_kfifo_queue::committed"
+     /\ H[i].b \notin {0, -3}
+
 \* C05: nikolaev_bounded_queue operated by more threads than it has entries.  nikolaev_scq's _threshold (3n-1, decremented by
 \* every failing dequeue, reset by an enqueue) then goes negative while the ring still holds (or is about to receive) an index:
 \* several try_push calls fail in the free ring's dequeue at the same time and keep decrementing after the only index has been
@@ -81,6 +91,7 @@ C05_ThresholdUnderflow(lo, hi) ==
 Eval(lo, hi) == CASE IOEnv.KF = "C12_StaleCapacity" -> C12_StaleCapacity(lo, hi)
                   [] IOEnv.KF = "C06_HeadTagBump" -> C06_HeadTagBump(lo, hi)
                   [] IOEnv.KF = "C05_ThresholdUnderflow" -> C05_ThresholdUnderflow(lo, hi)
+                  [] IOEnv.KF = "C06_PushRollback" -> C06_PushRollback(lo, hi)
                   [] IOEnv.KF = "C10_NestedAccessorDeref" -> C10_NestedAccessorDeref(lo, hi)
                   [] IOEnv.KF = "C10_StaleBlockRead" -> C10_StaleBlockRead(lo, hi)
                   [] OTHER -> FALSE
